@@ -306,6 +306,9 @@ class SchemaChecker:
         bound = {}
         for (pn, _k), a in zip(lem.params, args):
             bound[pn] = a
+        if lem.fn.args.vararg is not None:
+            # def h(self, pf, *pats): the surplus positional arguments as one tuple
+            bound['*' + lem.fn.args.vararg.arg] = ('tuple', list(args[len(lem.params):]))
         for k, v in kwargs:
             bound[k] = v
         for pn, _k in lem.params:
@@ -505,6 +508,11 @@ class Typer:
                 return ('pat', sc.N.apply(fn, [self.pat(a) for a in args]))
             if fn == 'MetaVar' and len(args) == 1 and args[0][0] == 'const':
                 return ('pat', MV(args[0][1]))
+            if fn in ('list', 'tuple') and len(args) == 1 and not kwargs:
+                lst = self.val(args[0])
+                if lst[0] != 'tuple':
+                    raise Decline(f'{self.caller}: {fn}() of something that is not a literal sequence')
+                return lst
             if fn == '_build_subst' and len(args) == 1:
                 lst = self.val(args[0])
                 if lst[0] != 'tuple':
